@@ -425,20 +425,18 @@ func zzvHasCid(ks []cid.Cid, c cid.Cid) bool {
 
 // ---- want-list cleanup behind cwants: SessionManager.CancelSessionWants / RemoveSession ----------------------
 
-// zzvCancelRec is the session.PeerManager of the real SessionManager: it records the CANCELs sent to peers.
-type zzvCancelRec struct {
-	calls   int
+// zzvPQ is the message queue of the one connected peer behind the real PeerManager: it records the CANCELs.
+type zzvPQ struct {
 	cancels []cid.Cid
 }
 
-func (p *zzvCancelRec) RegisterSession(peer.ID, bspm.Session)                 {}
-func (p *zzvCancelRec) UnregisterSession(uint64)                              {}
-func (p *zzvCancelRec) SendWants(peer.ID, []cid.Cid, []cid.Cid) bool          { return true }
-func (p *zzvCancelRec) BroadcastWantHaves([]cid.Cid)                          {}
-func (p *zzvCancelRec) SendCancels(ks []cid.Cid) {
-	p.calls++
-	p.cancels = append(p.cancels, ks...)
-}
+func (q *zzvPQ) AddBroadcastWantHaves([]cid.Cid) {}
+func (q *zzvPQ) AddWants([]cid.Cid, []cid.Cid)   {}
+func (q *zzvPQ) AddCancels(ks []cid.Cid)         { q.cancels = append(q.cancels, ks...) }
+func (q *zzvPQ) ResponseReceived(ks []cid.Cid)   {}
+func (q *zzvPQ) HasMessage() bool                { return false }
+func (q *zzvPQ) Startup()                        {}
+func (q *zzvPQ) Shutdown()                       {}
 
 // HarnessC37CancelWants: what the getter's cleanup callback triggers in the session layer. Two sessions with
 // arbitrary interest in the pool; session A gives up a key list (duplicates allowed) through
@@ -451,27 +449,33 @@ func HarnessC37CancelWants() {
 	sim := bssim.New()
 	pub := &zzvPubRec{}
 	ctx := context.Background()
-	pmr := &zzvCancelRec{}
+	pmr := &zzvPQ{}
+	remote := peer.ID("peerA")
+	pm := bspm.New(ctx, func(context.Context, peer.ID) bspm.PeerQueue { return pmr }, bspm.BroadcastControl{})
+	pm.Connected(remote)
 	sf := func(ctx context.Context, sm bssession.SessionManager, id uint64, sprm bssession.SessionPeerManager,
 		sim *bssim.SessionInterestManager, pm bssession.PeerManager, bpm *bsbpm.BlockPresenceManager,
 		notif notifications.PubSub, provSearchDelay, rebroadcastDelay time.Duration, self peer.ID) bssm.Session {
 		return &zzvSess{id: id}
 	}
 	pmf := func(id uint64) bssession.SessionPeerManager { return nil }
-	sm := bssm.New(sf, sim, pmf, bsbpm.New(), pmr, pub, peer.ID("self"))
+	sm := bssm.New(sf, sim, pmf, bsbpm.New(), pm, pub, peer.ID("self"))
 	a := sm.NewSession(ctx, time.Second, time.Second).(*zzvSess)
 	b := sm.NewSession(ctx, time.Second, time.Second).(*zzvSess)
 
+	// interest: 0 nobody, 1 A, 2 both, 3 B only (IB = highest case used). Every wanted key has been sent to
+	// the network, either as a broadcast want-have or as a targeted want-block to the connected peer.
+	IB := verifrt.Param("IB", 2)
 	var wantA, wantB [zzvPoolN]bool
 	var ka, kb []cid.Cid
 	for i := range pool {
-		switch verifrt.NondetRange("interest", 0, 3) { // 0 nobody, 1 A, 2 B, 3 both
+		switch verifrt.NondetRange("interest", 0, IB) {
 		case 1:
 			wantA[i] = true
 		case 2:
-			wantB[i] = true
-		case 3:
 			wantA[i], wantB[i] = true, true
+		case 3:
+			wantB[i] = true
 		}
 		if wantA[i] {
 			ka = append(ka, pool[i])
@@ -479,9 +483,19 @@ func HarnessC37CancelWants() {
 		if wantB[i] {
 			kb = append(kb, pool[i])
 		}
+		if wantA[i] || wantB[i] {
+			if verifrt.NondetRange("sentAsBroadcast", 0, 1) == 1 {
+				pm.BroadcastWantHaves([]cid.Cid{pool[i]})
+			} else {
+				pm.SendWants(remote, []cid.Cid{pool[i]}, nil)
+			}
+		}
 	}
 	sim.RecordSessionInterest(a.id, ka)
 	sim.RecordSessionInterest(b.id, kb)
+	for i := range pool {
+		verifrt.Assert("C37.sent-want-is-on-the-wantlist", zzvHasCid(pm.CurrentWants(), pool[i]) == (wantA[i] || wantB[i]))
+	}
 
 	var given [zzvPoolN]bool
 	if verifrt.NondetRange("shutdownSession", 0, 1) == 1 {
@@ -516,9 +530,16 @@ func HarnessC37CancelWants() {
 			verifrt.Assert("C37.given-up-want-is-cancelled", cancelled[i])
 		}
 	}
-	// afterwards: a block for pool[i] is wanted iff some session still wants it
+	// afterwards: a block for pool[i] is wanted iff some session still wants it, and the requester's want-list
+	// (PeerManager.CurrentWants, what Client.GetWantlist reports) holds exactly the wants still alive
+	now := pm.CurrentWants()
 	for i := range pool {
 		still := wantB[i] || (wantA[i] && !given[i])
+		if still {
+			verifrt.Assert("C37.wantlist-keeps-live-wants", zzvHasCid(now, pool[i]))
+		} else {
+			verifrt.Assert("C37.wantlist-free-of-cancelled-keys", !zzvHasCid(now, pool[i]))
+		}
 		w, nw := sim.SplitWantedUnwanted([]blocks.Block{zzvBlock(pool[i], 1)})
 		verifrt.Assert("C37.interest-after-cleanup", (len(w) == 1) == still && len(w)+len(nw) == 1)
 	}
